@@ -138,7 +138,7 @@ func (m *C08) AfterMsg(w *eng.World, st *eng.MsgStep) {
 			}
 		}
 		roleWhy = "allowlist off or signer allow-listed"
-		fr = &frame{tables: map[string]func(snap.RowChange) bool{tClass: nil, tClassIssuer: nil, tClassSeq: nil}, bank: true}
+		fr = &frame{tables: map[string]func(snap.RowChange) bool{tClass: insertOnly, tClassIssuer: insertOnly, tClassSeq: nil}, bank: true}
 	case *basetypes.MsgCreateProject:
 		signer = addrOf(msg.Admin)
 		if c := pre.ClassByID(msg.ClassId); c != nil {
@@ -146,7 +146,10 @@ func (m *C08) AfterMsg(w *eng.World, st *eng.MsgStep) {
 			entity = "class-issuers/" + c.Id
 		}
 		roleWhy = "class issuer"
-		fr = &frame{tables: map[string]func(snap.RowChange) bool{tProject: nil, tProjectSeq: nil}}
+		fr = &frame{tables: map[string]func(snap.RowChange) bool{tProject: insertOnly, tProjectSeq: nil}}
+		if c := pre.ClassByID(msg.ClassId); c != nil {
+			fr.tables[tProjectSeq] = pkIs(c.Key)
+		}
 	case *basetypes.MsgCreateBatch:
 		signer = addrOf(msg.Issuer)
 		if p := pre.ProjectByID(msg.ProjectId); p != nil {
@@ -156,12 +159,27 @@ func (m *C08) AfterMsg(w *eng.World, st *eng.MsgStep) {
 			}
 		}
 		roleWhy = "class issuer"
-		fr = &frame{tables: map[string]func(snap.RowChange) bool{tBatch: nil, tBatchSeq: nil, tBalance: nil, tSupply: nil, tOrigin: nil, tContract: nil}}
+		// a creation only inserts: the new batch, its supply, balance rows of the NEW batch, index rows
+		newBatchRows := func(rc snap.RowChange) bool {
+			if rc.Kind != "insert" {
+				return false
+			}
+			for _, b := range pre.Batches {
+				if strings.HasSuffix(rc.PK, fmt.Sprintf(" %d]", b.Key)) {
+					return false // a balance row of an existing batch
+				}
+			}
+			return true
+		}
+		fr = &frame{tables: map[string]func(snap.RowChange) bool{tBatch: insertOnly, tBatchSeq: nil, tBalance: newBatchRows, tSupply: insertOnly, tOrigin: insertOnly, tContract: insertOnly}}
+		if p := pre.ProjectByID(msg.ProjectId); p != nil {
+			fr.tables[tBatchSeq] = pkIs(p.Key)
+		}
 	case *basetypes.MsgMintBatchCredits:
 		signer = addrOf(msg.Issuer)
 		if b := pre.BatchByDenom(msg.BatchDenom); b != nil {
 			roleOK = bytes.Equal(b.Issuer, signer) && b.Open
-			fr = &frame{tables: map[string]func(snap.RowChange) bool{tBalance: nil, tSupply: pkIs(b.Key), tOrigin: nil}}
+			fr = &frame{tables: map[string]func(snap.RowChange) bool{tBalance: func(rc snap.RowChange) bool { return strings.HasSuffix(rc.PK, fmt.Sprintf(" %d]", b.Key)) }, tSupply: pkIs(b.Key), tOrigin: insertOnly}}
 		}
 		roleWhy = "batch issuer and batch open"
 	case *basetypes.MsgUpdateBatchMetadata:
@@ -476,6 +494,8 @@ func (m *C08) AfterMsg(w *eng.World, st *eng.MsgStep) {
 	}
 	m.sealedFrozen(w, st)
 }
+
+func insertOnly(rc snap.RowChange) bool { return rc.Kind == "insert" }
 
 func hasCreator(s *snap.Snap, a sdk.AccAddress) bool {
 	for _, c := range s.AllowedCreators {
